@@ -36,7 +36,7 @@ Definition maybe_remove_final (nq : nat) (idx : list nat) (c : circ) : circ :=
 Definition pre_pass (gh gsx : nat) (env : benv) (qc : mcirc) (ids : list (list nat)) (ms : list Z)
            (g idx : list nat) : res mcirc :=
   res_bind (append_measurement_register qc idx) (fun qc1 =>
-  res_bind (decompose env (mdata qc1) (mnc qc1) ids (Some ms)) (fun dk =>
+  res_bind (decompose env (mdata qc1) (mnc qc1) ids (Some (map Some ms))) (fun dk =>
     let qc2 := mkMC (mnq qc1) (mnc qc1 + snd dk) (mcregs qc1 ++ [(false, seq (mnc qc1) (snd dk))])
                     (maybe_remove_final (mnq qc1) idx (fst dk)) in
     append_measurement_circuit gh gsx qc2 g idx None)).
@@ -219,3 +219,22 @@ Definition suffix_avoids_sourcesb (env : benv) (sub : circ) (idx : list nat) : b
    (4) no re-use on an unseparated circuit: the output of cut_wires *)
 Definition no_resets (c : circ) : bool := forallb (fun x => negb (is_reset x)) c.
 Definition no_placeholders (c : circ) : bool := forallb (fun x => negb (is_qpd x)) c.
+
+(* ------------------------------------------------------------------------------------------------
+   the subexperiment with NO reset removed at all (register, decomposition, measurement suffix): the reference for
+   "the values are unaffected by these removals" *)
+Definition reference (gh gsx : nat) (env : benv) (qc : mcirc) (ids : list (list nat)) (ms : list Z)
+           (g idx : list nat) : res mcirc :=
+  res_bind (append_measurement_register qc idx) (fun qc1 =>
+  res_bind (decompose env (mdata qc1) (mnc qc1) ids (Some (map Some ms))) (fun dk =>
+    append_measurement_circuit gh gsx
+      (mkMC (mnq qc1) (mnc qc1 + snd dk) (mcregs qc1 ++ [(false, seq (mnc qc1) (snd dk))]) (fst dk)) g idx None)).
+
+(* placeholders act inside the circuit (QuantumCircuit.append); with resets_wf: all the post-condition theorem needs *)
+Definition ph_wf (nq : nat) (x : instr) : bool :=
+  match iop x with
+  | Qpd1 _ _ _ _ => Nat.ltb (nth 0 (iqs x) 0) nq
+  | Qpd2 _ _ _ => Nat.ltb (nth 0 (iqs x) 0) nq && Nat.ltb (nth 1 (iqs x) 0) nq
+  | _ => true
+  end.
+Definition sub_wf (nq : nat) (sub : circ) : bool := resets_wf nq sub && forallb (ph_wf nq) sub.
